@@ -64,18 +64,27 @@ extern int mpt_queue_crop(MPT_STRUCT(queue) *queue, size_t pos, size_t len)
 	
 	/* move data over segments */
 	if (high) {
-		uint8_t *src = ((uint8_t *) queue->base) + len - low;
-		if (low <= post) {
+		uint8_t *src = queue->base;
+		
+		/* removed area ends in low part, keep remaining low data */
+		if (len < low) {
+			(void) memmove(base, base + len, low - len);
+			base += low - len;
+			post -= low - len;
+			low = len;
+		}
+		/* removed area extends into high part */
+		else {
+			src += len - low;
+		}
+		if (post <= low) {
 			memcpy(base, src, post);
 			ret = 1;
 		}
 		else {
-			/* limit moved data size */
+			/* fill low part, move remaining data to queue base */
 			memcpy(base, src, low);
-			post -= low;
-			base = queue->base;
-			/* start at offset 'low' in post data ((len - low) + low) */
-			(void) memmove(base, base+len, post);
+			(void) memmove(queue->base, src + low, post - low);
 			ret = 3;
 		}
 	}
